@@ -340,7 +340,7 @@ def _unjson(hist):
 
 
 def task(t):
-    mode, first, depth = t
+    mode, first, depth = t[:3]
     ns = seams.load()
     evs = events()
     viols = []
@@ -362,7 +362,16 @@ def task(t):
                 for ev in evs:
                     rec(hist + [ev])
 
-        rec([evs[first]])
+        second = t[3] if len(t) > 3 else None
+        if second is None:
+            rec([evs[first]])
+        else:
+            # one task per (first, second) event: the same sequences, spread over more workers
+            if second == 0:
+                depth, keep = 1, depth
+                rec([evs[first]])
+                depth = keep
+            rec([evs[first], evs[second]])
         return dict(n=n, states=len(states), violations=viols, sample=None)
     # BFS to closure with dedup (the canonically-equivalent twin names are left to the undeduplicated sequences: three more names
     # would multiply the reachable states without adding a new kind of transition)
@@ -406,13 +415,20 @@ def task(t):
 def run(tier, seed):
     evs = events()
     all_depth = 3 if tier == "quick" else 4
-    bfs_depth = 6 if tier == "quick" else 12
-    # thorough: sequences of 4 events start with an add (every other first event meets the empty set, is refused or changes nothing
+    bfs_depth = 6 if tier == "quick" else 8  # (measured: 6877 / 18230 / 40658 states at depth 6 / 7 / 8 per first event; it does not close)
+    # thorough: sequences of 4 events start with an add of a plain name (every other first event meets the empty set, is refused or changes nothing
     # there, and is followed to 3 events: what such a call might leave behind shows within the next two events)
     def dep(i):
-        return all_depth if (tier == "quick" or evs[i][0] == "add") else all_depth - 1
+        e = evs[i]
+        return all_depth if (tier == "quick" or (e[0] == "add" and isinstance(e[1], str) and e[1] in NAMES and e[2] in ("d1", "d2"))) else all_depth - 1
 
-    tasks = [("all", i, dep(i)) for i in range(len(evs))] + [("bfs", i, bfs_depth) for i in range(len(evs)) if evs[i][0] == "add" and evs[i][1] not in TWINS]
+    tasks = []
+    for i in range(len(evs)):
+        if dep(i) >= 4:
+            tasks += [("all", i, 4, j) for j in range(len(evs))]
+        else:
+            tasks.append(("all", i, dep(i)))
+    tasks += [("bfs", i, bfs_depth) for i in range(len(evs)) if evs[i][0] == "add" and evs[i][1] not in TWINS]
     # the same events on a set loaded from a parse result that a second set shares
     tasks += [("loaded", i, all_depth - 1) for i in range(len(evs))]
     res = pool.run_tasks("checks.c12:task", tasks)
